@@ -111,6 +111,9 @@ def check(ctx, tier):
     W.report(ctx, tk, "C19.d", fs)
     from .. import hazards as _hz, scopes as _sc
     _hz.generic(ctx, tk, "C19.z", _sc.scope(tk, "C19", depth=1))
+    # row numbers of the caller reach the index-width dependent gather through the whole __getitem__ family
+    _hz.h65_selector_cast_to_index_dtype(ctx, tk, "C19.z/H65", [f_ for q_, f_ in sorted(ctx.program.funcs.items())
+                                                                  if q_.startswith(("raggedarray.indexablearray.", "raggedshape.")) and f_ not in _sc.scope(tk, "C19", depth=1)])
     # width-specific code may sit anywhere in the geometry / slicing modules: field masks and narrowing casts are looked for in all of them
     geo = [f_ for q_, f_ in sorted(ctx.program.funcs.items()) if q_.startswith(("raggedshape.", "raggedarray.")) and f_ not in _sc.scope(tk, "C19", depth=1)]
     _hz.h52_mask_of_unusual_width(ctx, tk, "C19.z/H52", geo)
